@@ -744,6 +744,52 @@ def check_torch(case, out):
     out.sample = {"nodes": spec["nodes"], "query": q}
 
 
+# ------------------------------------------------------------------------------ structure-search engine histories
+SEARCH_STEPS = [["k2"], ["bdeu", 1.0], ["bdeu", 50.0], ["bic"], ["aic"], ["bds", 2.0], ["bdeu", 1000.0], ["name:k2"], ["name:bic"], ["name:bdeu"]]
+
+
+@st.composite
+def search_history_case(draw):
+    ds = draw(gen.data_spec(min_cols=3, max_cols=4, min_rows=12, max_rows=30, min_card=2, max_card=3, kinds=("int",), extra_states=False, dependent=True))
+    ds["pass_state_names"] = False
+    steps = draw(st.lists(st.sampled_from(SEARCH_STEPS), min_size=2, max_size=3))
+    return {"data": ds, "steps": steps, "use_cache": draw(st.sampled_from([True, True, False]))}
+
+
+def run_search_engine(case, out):
+    """one HillClimbSearch object asked several times (scorers of the same class with other hyper-parameters included):
+    every answer equals that of a fresh object"""
+    from pgmpy.estimators import AICScore, BDeuScore, BDsScore, BicScore, HillClimbSearch, K2Score
+
+    df = build_frame(case["data"])
+
+    def scorer(step, frame):
+        if step[0].startswith("name:"):
+            return step[0][5:]
+        return {"k2": lambda: K2Score(frame), "bic": lambda: BicScore(frame), "aic": lambda: AICScore(frame),
+                "bdeu": lambda: BDeuScore(frame, equivalent_sample_size=step[1]), "bds": lambda: BDsScore(frame, equivalent_sample_size=step[1])}[step[0]]()
+
+    shared = out.call("HillClimbSearch", HillClimbSearch, df, use_cache=case["use_cache"])
+    if shared is RAISED:
+        return
+    out.evals = 0
+    seen = set()
+    for i, step in enumerate(case["steps"]):
+        tag = f"hc.estimate[{step[0]}]" + ("[same_class_other_hyperparameter]" if step[0] in seen and len(step) > 1 else "")
+        seen.add(step[0])
+        got = out.call(tag, lambda: shared.estimate(scoring_method=scorer(step, df), show_progress=False, max_iter=50))
+        fresh_engine = HillClimbSearch(build_frame(case["data"]), use_cache=case["use_cache"])
+        fresh = out.call(tag + "[fresh]", lambda: fresh_engine.estimate(scoring_method=scorer(step, fresh_engine.data), show_progress=False, max_iter=50))
+        out.evals += 2
+        if got is RAISED or fresh is RAISED:
+            return
+        if sorted(map(tuple, got.edges())) != sorted(map(tuple, fresh.edges())):
+            out.fail(f"{tag}:answer_differs_from_fresh_engine", f"step {i} of {case['steps']}: {sorted(got.edges())} vs {sorted(fresh.edges())}")
+            return
+    out.nontrivial = len({tuple(s_) for s_ in case["steps"]}) >= 2
+    out.sample = {"columns": case["data"]["columns"], "steps": case["steps"], "use_cache": case["use_cache"]}
+
+
 def check_purity_factor_ops(case, out):
     """factor operations leave their operands alone: the C04 operation cases, keeping only the purity verdicts (operand
     modified by an out-of-place call, result sharing storage with an operand); values are C04's business"""
@@ -769,6 +815,8 @@ SUBCHECKS = [
         shards={"quick": 8, "thorough": 16}, doc="scores, estimators, structure searches, CI tests, predict leave data frames, models and start graphs unchanged"),
     Sub("purity_mn", check_purity_mn, strategy=lambda tier: mn_case(), n={"quick": 60, "thorough": 800},
         shards={"quick": 2, "thorough": 8}, doc="Markov-network inference, conversions and factor helpers leave the model and its factors unchanged"),
+    Sub("search_engine_history", run_search_engine, strategy=lambda tier: search_history_case(), n={"quick": 25, "thorough": 400}, shards={"quick": 6, "thorough": 8},
+        doc="several estimate() calls on one HillClimbSearch object (different scorers, same scorer class with other hyper-parameters) vs fresh objects"),
     Sub("engine_history", run_engine, strategy=lambda tier: engine_case(), n={"quick": 120, "thorough": 2000},
         shards={"quick": 8, "thorough": 16}, doc="question sequences on one shared engine vs a fresh engine on a fresh model; same question twice"),
     Sub("relabel", check_relabel, strategy=lambda tier: relabel_case(), n={"quick": 100, "thorough": 1500},
